@@ -97,14 +97,14 @@ func substPat(p string, ps map[string]string) string {
 }
 
 type gcase struct {
-	Fam     string         `json:"fam"`
-	ID      string         `json:"id"`
-	Cfg     map[string]any `json:"cfg"`
+	Fam     string           `json:"fam"`
+	ID      string           `json:"id"`
+	Cfg     map[string]any   `json:"cfg"`
 	Ops     []map[string]any `json:"ops"`
-	Battery string         `json:"battery"`
-	Base    bool           `json:"base,omitempty"`
-	Mirror  bool           `json:"mirror,omitempty"`
-	Pool    map[string]any `json:"pool,omitempty"`
+	Battery string           `json:"battery"`
+	Base    bool             `json:"base,omitempty"`
+	Mirror  bool             `json:"mirror,omitempty"`
+	Pool    map[string]any   `json:"pool,omitempty"`
 }
 
 func mutatePath(r *rand.Rand, p string, anyByte bool) string {
@@ -233,13 +233,13 @@ func genRouter(r *rand.Rand, n int, mode string, out *bufio.Writer) {
 		}
 		th := []map[string]any{}
 		for k := 0; k < 3; k++ {
-			body := []string{"", "<a href='x'>&\"</a>", l1enc(randBytes(r, 12)), l1enc("a\x00b<\xff>")}[r.IntN(4)]
+			body := []string{"", "<a href='x'>&\"</a>", l1enc(randBytes(r, 12)), l1enc("a\x00b<\xff>"), "it's \"q\""}[r.IntN(5)]
 			n := 0
 			if body != "" && r.IntN(3) == 0 {
 				n = -1
 			}
-			th = append(th, map[string]any{"op": "tracehelper", "method": "TRACE", "path": l1enc(mutatePath(r, "/p<q>", true)),
-				"hdr": map[string]string{"X-T": l1enc("v&'" + randBytes(r, 3))}, "body": body, "flag": r.IntN(2) == 0, "n": n})
+			th = append(th, map[string]any{"op": "tracehelper", "method": "TRACE", "path": l1enc(mutatePath(r, []string{"/p<q>", "/p'q\"r"}[r.IntN(2)], true)),
+				"hdr": map[string]string{"X-T": l1enc([]string{"v&'", "v'\""}[r.IntN(2)] + randBytes(r, 3))}, "body": body, "flag": r.IntN(2) == 0, "n": n})
 		}
 		c := gcase{Fam: "router", ID: fmt.Sprintf("g%s:%d", mode, ci), Cfg: cfg, Ops: ops, Battery: "every", Base: true,
 			Pool: map[string]any{"probes": probes, "methods": methods, "th": th}}
@@ -271,7 +271,8 @@ func randPattern(r *rand.Rand) string {
 	case 2: // a pool pattern with one byte changed
 		p := []byte(gpool[r.IntN(len(gpool))].P)
 		if len(p) > 0 {
-			cs := "{}:-/x\\["; p[r.IntN(len(p))] = cs[r.IntN(len(cs))]
+			cs := "{}:-/x\\["
+			p[r.IntN(len(p))] = cs[r.IntN(len(cs))]
 		}
 		return string(p)
 	}
@@ -410,7 +411,9 @@ func genParams(r *rand.Rand, n int, out *bufio.Writer) {
 		ops := []map[string]any{}
 		for s := 0; s < 6+r.IntN(8); s++ {
 			k := keys[r.IntN(len(keys))]
-			switch r.IntN(10) {
+			switch r.IntN(11) {
+			case 10:
+				ops = append(ops, map[string]any{"op": "fill", "n": 20 + r.IntN(30)})
 			case 0:
 				ops = append(ops, map[string]any{"op": "reset"})
 			case 1, 2:
@@ -449,6 +452,9 @@ func genHead(r *rand.Rand, n int, out *bufio.Writer) {
 				default:
 					prog = append(prog, map[string]any{"k": "set", "a": keys[r.IntN(len(keys))], "b": fmt.Sprint(r.IntN(4)), "n": 0})
 				}
+			}
+			if r.IntN(4) == 0 { // the handler panics somewhere; a bundled recovery option answers
+				prog = append(prog[:r.IntN(len(prog)+1)], map[string]any{"k": "panic", "a": "", "b": "", "n": 0})
 			}
 			ops = append(ops, map[string]any{"op": "prog", "prog": prog})
 		}
@@ -542,7 +548,9 @@ func genGroupBytes(r *rand.Rand, n int, out *bufio.Writer) {
 		return map[string]any{"name": name, "trace": false, "lock": false, "icpt": gIcpt, "domain": "", "recovery": false}
 	}
 	hosts := func(ds ...string) map[string]any { return map[string]any{"t": "hosts", "domains": ds} }
-	pv := func(vs ...string) map[string]any { return map[string]any{"t": "pathver", "param": "ver", "versions": vs} }
+	pv := func(vs ...string) map[string]any {
+		return map[string]any{"t": "pathver", "param": "ver", "versions": vs}
+	}
 	hv := func(vs ...string) map[string]any {
 		return map[string]any{"t": "headerver", "param": "hv", "key": "version", "versions": vs}
 	}
